@@ -446,6 +446,8 @@ def _computed(ctx: Ctx, fn: Func, e: ast.expr, depth: int = 0) -> str | None:
         if isinstance(v, Ref) or (isinstance(v, tuple) and all(isinstance(x, Ref) for x in v)):
             return None
         return f"`{e.id}` does not fold to a tuple of classes"
+    if isinstance(e, ast.BinOp) and isinstance(e.op, ast.Add):
+        return _computed(ctx, fn, e.left, depth + 1) or _computed(ctx, fn, e.right, depth + 1)
     if isinstance(e, (ast.GeneratorExp, ast.ListComp, ast.SetComp, ast.DictComp)):
         return "comprehension"
     return f"`{norm(e)[:40]}`"
